@@ -329,6 +329,23 @@ open SqlglotModel.Bag in
 def scalarDecorrelated (proj : Table → Val) (fallback : Val) (on : Row → Row → B3) (a : Row) (r : Table) : Val :=
   coalesceVal (if (matchesOf on a r).isEmpty then Val.null else proj (matchesOf on a r)) fallback
 
+-- ------------------------------------------------------------------------------------------ merge_subqueries: renaming an inner source
+/-- a column node of the tree: its identity (Python object), the source it is qualified with, its name -/
+structure ColRef where
+  id : Nat
+  table : String
+  name : String
+  deriving DecidableEq, Repr, Inhabited
+
+/-- `_rename_inner_sources`: `for column in inner_scope.source_columns(conflict): column.set("table", new)` — the loop
+    runs over the scope's CACHED column list (object identities), so only nodes that are in the cache are touched -/
+def renameVia (cache : List Nat) (old new : String) (live : List ColRef) : List ColRef :=
+  live.map fun c => if cache.contains c.id && c.table == old then { c with table := new } else c
+
+/-- what renaming a source must achieve: every live column of that source follows it -/
+def renameAll (old new : String) (live : List ColRef) : List ColRef :=
+  live.map fun c => if c.table == old then { c with table := new } else c
+
 -- ------------------------------------------------------------------------------------------ pushdown_projections
 /-- the disjuncts of the `if` that sets `parent_selections = {SELECT_ALL}` (no column may be pruned) -/
 inductive ProjAtom where
